@@ -62,6 +62,8 @@ StNO4 == {<<3, 2, 0, 1>>, <<0, 4, 0, 0>>}
 StIso3 == {<<3, 1, 0>>, <<0, 0, 2>>}
 StIso4 == {<<3, 0, 1, 2>>, <<0, 1, 0, 0>>}
 
+St5d == { v \in Box(5, 1) : VSum(v) \in 2..3 } \cup {<<3, 0, 1, 2, 0>>, <<0, 3, 2, 1, 1>>, <<2, 2, 0, 0, 3>>, <<1, 0, 3, 0, 2>>}
+StepsB == {<<1, 2>>, <<-1, 3>>}
 StepsA == {<<1, 2>>, <<-1, 3>>, <<2, 1>>}
 StepsNone == {}
 EmptySet == {}
@@ -78,6 +80,12 @@ UnitsA == << U("min-M", "minute", "molar", "minute", "molar", "minute", "molar")
              U("h-uM", "hour", "micromolar", "minute", "millimolar", "hour", "millimolar"),
              U("s-mM", "second", "millimolar", "second", "millimolar", "second", "millimolar") >>
 PoolW == <<OHm, Hp, H2O>>
+(* substances that are composed of nothing: a third body, a photon *)
+Mbody == S("M", <<>>)
+Photon == S("hv", <<>>)
+PoolM == <<H2O, Hp, Mbody, OHm>>
+PoolMt == <<H2O, Hp, Mbody, OHm, Hat, El, Photon>>
+StNO3b == {<<3, 1, 2>>, <<1, 2, 0>>, <<0, 1, 3>>}
 NH3 == S("NH3", <<<<1, 3>>, <<7, 1>>>>)
 N2 == S("N2", <<<<7, 2>>>>)
 NO == S("NO", <<<<7, 1>>, <<8, 1>>>>)
